@@ -973,7 +973,7 @@ func TestVerifC41Group(t *testing.T) {
 	oneEach := [2][][]string{{{"aa"}, {"ab"}}, {{"ba"}}}
 	if thorough {
 		// one send racing one Stop, every atomic operation a scheduling point, deeper bound
-		add("one", c29bCfg{scripts: [2][][]string{{{"aa"}}, {}}, stop: "stop", atomics: true, bound: 4})
+		add("one", c29bCfg{scripts: [2][][]string{{{"aa"}}, {}}, stop: "stop", atomics: true, bound: 3})
 		add("two", c29bCfg{scripts: twoChan, stop: "stop-cancelled", gate: 1, atomics: true, bound: 2})
 		add("park-append", c29bCfg{scripts: oneEach, stop: "stop-timeout", parkAppend: true, atomics: true, bound: 2})
 		add("router", c29bCfg{router: true, scripts: [2][][]string{{{"aa", "bb"}}, {{"ab", "ba"}}}, slow: true, stop: "stop", gate: 1, postCommit: true, bound: 2})
@@ -987,7 +987,7 @@ func TestVerifC41Group(t *testing.T) {
 		add("two", c29bCfg{scripts: twoChan, slow: true, stop: "stop-cancelled", gate: 1, bound: 3})
 		add("two", c29bCfg{scripts: twoChan, advance: 2, effect: 2, stop: "stop-timeout", gate: 1, bound: 3})
 	} else {
-		add("two", c29bCfg{scripts: twoChan, slow: true, stop: "stop", gate: 2, postCommit: true, bound: 2})
+		add("two", c29bCfg{scripts: [2][][]string{{{"aa", "ab"}}, {{"ba"}, {"bb"}}}, stop: "stop", gate: 1, postCommit: true, bound: 2})
 		add("two", c29bCfg{scripts: twoChan, slow: true, stop: "stop-timeout", gate: 1, bound: 2})
 		add("two", c29bCfg{scripts: twoChan, stop: "stop-cancelled", gate: 1, bound: 2})
 		add("park-append", c29bCfg{scripts: oneEach, stop: "stop-timeout", parkAppend: true, postCommit: true, bound: 2})
